@@ -20,6 +20,7 @@
 -/
 import OrxPar.Lemmas.Resources
 import OrxPar.Lemmas.Panic
+import OrxPar.Lemmas.PanicShort
 namespace OrxPar
 open Res
 
@@ -133,6 +134,25 @@ theorem C14_pred_yes_full (eff : List Event) (P : Par) (t : Terminal) (pe : Even
     · exact List.mem_append_left _ h1
     · rw [Par.certain_eq_possible_full P t hsc] at h1
       exact List.mem_append_right _ ((Par.termLog_perm_full P ex t hsc hacc).mem_iff.mpr h1)
+  · split at h <;> cases h
+
+/-- **C14 (answer "yes", short-circuit terminals).** in every accepted execution of a
+    short-circuit terminal — the pulled chunks tile a prefix of the source that is everything or
+    contains a hit, distributed over the workers in any way — every invocation of the lazy
+    sequential evaluation is performed: whoever pulled an element before the first hit scans it
+    completely, and the first hit is scanned up to its match -/
+theorem C14_pred_yes_short (eff : List Event) (P : Par) (t : Terminal) (pe : Event) (ex : Exec)
+    (n : Nat) (hsc : t.isShortCircuit = true)
+    (ht : Tiles ex.asg 0 (P.src.items.take n)) (htid : ∀ c ∈ ex.asg, c.tid ∈ ex.order)
+    (hcov : P.src.items.length ≤ n ∨ ∃ x ∈ P.src.items.take n, hitOf (P.scanFn t) x = true)
+    (h : panicPred eff P t pe = .yes) : pe ∈ eff ++ P.termLog ex t := by
+  unfold panicPred at h
+  split at h
+  · rename_i h1
+    simp only [Bool.or_eq_true, List.contains_iff_mem] at h1
+    rcases h1 with h1 | h1
+    · exact List.mem_append_left _ h1
+    · exact List.mem_append_right _ (Par.certain_sub_termLog_short P ex t hsc n ht htid hcov pe h1)
   · split at h <;> cases h
 
 /-- the refuted alternative (a seeded change once made `run_map` collect its handles with
